@@ -127,6 +127,12 @@ def build(sess, name="x"):
             elif op == "done":
                 add("advance %s %d" % (S, tk), ("advance", "s"))
                 add("done %s %d %s" % (S, tk, srv_key), ("op", "s", tk))
+            elif op == "raised":
+                # the server application's handler ended with an exception: `async with client` runs cleanup() (no DISCONNECT is
+                # sent), start_client swallows the exception and forgets the peer
+                add("advance %s %d" % (S, tk), ("advance", "s"))
+                add("aexit %s %d %s" % (S, tk, srv_key), ("op", "s", tk))
+                add("done %s %d %s" % (S, tk, srv_key), ("op", "s", tk))
     end = ticks(cut) - 1 if cut is not None else ticks(sess.end_time)
     add("advance %s %d" % (C, end), ("advance", "c"))
     add("advance %s %d" % (S, end), ("advance", "s"))
